@@ -11,7 +11,7 @@ CFG = {
                 nontrivial=lambda p, t: t.count(" L") + t.startswith("L") >= 2 and bool(re.search(r"gconn \d+ \d+ -?\d+ 1 |block \d+ 1|cdisc|gclear", p))),
     "C02": dict(profiles=[("lifetime", 5), ("reentrant", 3), ("slots", 1)],
                 rule="a trackable referenced by at least one slot functor is destroyed (or assigned/moved/notified) while that slot or a copy exists, and a query or emission follows",
-                nontrivial=lambda p, t: bool(re.search(r"snew \d+ [iv] \d+ [mbt] [123]", p)) and bool(re.search(r"tdel|tasg|tmasg|tnot", p))),
+                nontrivial=lambda p, t: bool(re.search(r"snew \d+ [iv] \d+ [mnbt] [123]", p)) and bool(re.search(r"tdel|tasg|tmasg|tnot", p))),
     "C03": dict(profiles=[("reentrant", 8), ("chain", 1)],
                 rule="a slot body performs at least one action (connect, disconnect, clear, block, destroy, emit) while an emission is running (an operation event nested inside an E..L pair of the model trace)",
                 nontrivial=lambda p, t: bool(re.search(r"S \d+ [ca] \d+ [a-z]", p)) and bool(re.search(r"E\d+,\d+ (?!L)", t))),
